@@ -143,7 +143,9 @@ def run(ctx):
     for mode in ("either", "always", "never"):
         vlib.model_check(ctx, "PowMine", cfg="PowMineSafety", constants={"NW": 3 if q else 4, "Cap": 3 if q else 4, "Mode": '"%s"' % mode},
                          name="M_safety_" + mode, timeout=1500)
-    vlib.model_check(ctx, "PowMine", cfg="PowMineLive", constants={"NW": 2 if q else 3, "Cap": 2 if q else 3}, name="M_live", timeout=1500)
+    for mode in ("either", "always", "never"):
+        vlib.model_check(ctx, "PowMine", cfg="PowMineLive", constants={"NW": 2 if q else 3, "Cap": 2 if q else 3, "Mode": '"%s"' % mode},
+                         name="M_live_" + mode, timeout=1500)
     # vacuity control: an undersized channel must violate SendNeverBlocks in the model
     r = vlib.tlc(ctx, "PowMine", cfg="PowMineSafety", constants={"Cap": 1}, workers=4, name="M_vacuity_cap1", check_ok=False, count=False)
     if "Invariant SendNeverBlocks is violated" not in r["out"]:
